@@ -218,6 +218,17 @@ func callShortName(c *ssa.CallCommon) string {
 	if f := c.StaticCallee(); f != nil {
 		return f.Name()
 	}
+	// a function value loaded from a struct field is named after the field
+	if u, ok := c.Value.(*ssa.UnOp); ok {
+		if fa, ok := u.X.(*ssa.FieldAddr); ok {
+			if stt, _ := structOf(fa.X.Type()); stt != nil {
+				return stt.Field(fa.Field).Name()
+			}
+		}
+	}
+	if p, ok := c.Value.(*ssa.Parameter); ok {
+		return p.Name()
+	}
 	return "func"
 }
 
